@@ -43,7 +43,7 @@ def run(ctx):
         traces = [ctx.replay]
     else:
         t1 = os.path.join(ctx.work, "roundtrips.ndjson")
-        lib.run_driver(exe, ["rt", t1, 640 if q else 4800, 0 if q else 1], env=env, timeout=900)
+        lib.run_driver(exe, ["rt", t1, 640 if q else 8000, 0 if q else 1], env=env, timeout=900)
         t2 = os.path.join(ctx.work, "truncations.ndjson")
         lib.run_driver(exe, ["trunc", t2, 0 if q else 1], env=env, timeout=900)
         traces = [t1, t2]
@@ -51,7 +51,7 @@ def run(ctx):
             # a second seeded family, and a pass with the ASan/UBSan-instrumented STIR libraries: a sanitizer
             # report inside write_to_file / read_from_file is a violation (memory safety of the IO path).
             t3 = os.path.join(ctx.work, "roundtrips-b.ndjson")
-            lib.run_driver(exe, ["rt", t3, 2400, 1], env={"VERIF_SEED": str(ctx.seed + 1000)}, timeout=900)
+            lib.run_driver(exe, ["rt", t3, 4000, 1], env={"VERIF_SEED": str(ctx.seed + 1000)}, timeout=900)
             traces.append(t3)
             exe_san = lib.build_driver("c10_imageio", santree=True)
             # while the overflow in stir::round is open (known finding C10-roundint; UBSan stops at it) the pass
